@@ -315,6 +315,9 @@ func (app *App) optimizeReplicaWithSmallestLag(
 		return err
 	}
 	replicaToOptimize := app.cluster.Get(hostnameToOptimize)
+	if replicaToOptimize == nil {
+		return fmt.Errorf("host %s is not registered", hostnameToOptimize)
+	}
 
 	err = app.optController.Enable(replicaToOptimize)
 	if err != nil {
